@@ -277,7 +277,7 @@ var c08CommentBases = []string{
 	"import \"a/b\" as c",
 	"sink s kindmatch [\"a\"], priority 1 { a }",
 }
-var c08CommentForms = []string{"/* c */", "# c\n", "/* c */\n", "\n", "/* a */ /* b */", "# a\n# b\n", "\n\n/* c */\n\n"}
+var c08CommentForms = []string{"/* c */", "# c\n", "/* c */\n", "\n", "/* a */ /* b */", "# a\n# b\n", "\n\n/* c */\n\n", "/**/", "#\n"}
 
 func c08Fields(s string) []string {
 	var out []string
@@ -298,7 +298,7 @@ func c08Fields(s string) []string {
 	return out
 }
 
-// VerifC08Comments: a comment (block, line, with and without line breaks, two in a row) or a bare line break inserted at
+// VerifC08Comments: a comment (block, line, with and without line breaks, two in a row, empty ones) or a bare line break inserted at
 // a symbolic token boundary of every statement kind: whatever parses prints to text that parses to the same tree up to
 // comments, and printing is idempotent.  (Comments may be dropped or moved - they are outside the comparison - but they
 // must not change the tree or make the printer oscillate.)
